@@ -842,28 +842,26 @@ func runR05_6(c *Ctx, r *R) {
 			}
 		}
 	}
-	// order: encode ranges over fields ascending, decode iterates descending
+	// order: encode walks the struct's fields ascending, decode descending (decided on the loops' induction
+	// variables, not on the spelling of the loop header)
 	enc, dec := findFuncDecl(gp, "structWriter.encode_method"), findFuncDecl(gp, "structWriter.decode_method")
 	if enc != nil && dec != nil {
-		asc, desc := false, false
-		ast.Inspect(enc.Body, func(n ast.Node) bool {
-			if rs, ok := n.(*ast.RangeStmt); ok && exprString(rs.X) == "fields" {
-				asc = true
+		isFields := func(v ssa.Value) bool {
+			call, ok := v.(*ssa.Call)
+			if !ok {
+				return false
 			}
-			return true
-		})
-		ast.Inspect(dec.Body, func(n ast.Node) bool {
-			fs, ok := n.(*ast.ForStmt)
-			if !ok || fs.Init == nil || fs.Post == nil {
-				return true
+			name := ""
+			var recv ssa.Value
+			if call.Call.IsInvoke() {
+				name, recv = call.Call.Method.Name(), call.Call.Value
+			} else if cal := call.Call.StaticCallee(); cal != nil && len(call.Call.Args) > 0 {
+				name, recv = cal.Name(), call.Call.Args[0]
 			}
-			if strings.Contains(exprString(fs.Init.(*ast.AssignStmt).Rhs[0]), "len(fields) - 1") {
-				if id, ok := fs.Post.(*ast.IncDecStmt); ok && id.Tok == token.DEC {
-					desc = true
-				}
-			}
-			return true
-		})
+			return name == "Values" && recv != nil && strings.HasSuffix(valueSource(recv), ".Fields")
+		}
+		asc := loopOrderOver(c, c.Func("internal/lang/generator", "structWriter.encode_method"), isFields) == "asc"
+		desc := loopOrderOver(c, c.Func("internal/lang/generator", "structWriter.decode_method"), isFields) == "desc"
 		key := "generator.structWriter/field-order"
 		if asc && desc {
 			r.OK(key, enc.Pos(), "fields encoded in declaration order, decoded in reverse (values are read from the end of the buffer)")
@@ -1086,9 +1084,30 @@ func runR16_3(c *Ctx, r *R) {
 	// the write (fieldAny) is skipped only under HasField(tag) == true or TagAt !ok
 	key2 := fnKey(f) + "/skip-only-present"
 	good := false
+	// the write may sit in a helper the loop calls per field (copyFieldAt(src, i)): its conditions there and the
+	// conditions of the helper call in Copy are judged together
+	type wsite struct {
+		call  ssa.CallInstruction
+		outer []Cond
+	}
+	var wsites []wsite
 	for _, call := range callsIn(f, false) {
 		if o := calleeObj(call); o != nil && o.Name() == "fieldAny" {
-			conds := pathConds(call.Block())
+			wsites = append(wsites, wsite{call, nil})
+			continue
+		}
+		if h := call.Common().StaticCallee(); h != nil && h.Blocks != nil && h.Pkg == f.Pkg && h != f {
+			for _, c2 := range callsIn(h, false) {
+				if o := calleeObj(c2); o != nil && o.Name() == "fieldAny" {
+					wsites = append(wsites, wsite{c2, pathConds(call.Block())})
+				}
+			}
+		}
+	}
+	for _, ws := range wsites {
+		call := ws.call
+		{
+			conds := append(append([]Cond{}, ws.outer...), pathConds(call.Block())...)
 			hasNotHas := false
 			for _, cd := range conds {
 				if hc, ok := cd.V.(*ssa.Call); ok && !cd.Truth {
